@@ -9,6 +9,7 @@ package rojson
 
 //@ func Marshal$1
 //@   props C18
+//@   binds v
 //@   maypanic
 //@   track call.*
 //@   ensures [calls-the-wrapped-function-once|C18] count(call.ANY) == 1 && called(call.Marshal)
@@ -17,6 +18,7 @@ package rojson
 
 //@ func Unmarshal$1
 //@   props C18
+//@   binds v
 //@   maypanic
 //@   track call.*
 //@   ensures [calls-the-wrapped-function-once|C18] count(call.ANY) == 1 && called(call.Unmarshal)
